@@ -81,11 +81,11 @@ def handle (j : Json) : IO Unit := do
     let listers := jnatList (jget j "listers")
     let o := parseObs impl
     let foreign := (jintList (jget impl "eps")).any (· < 0)
-    let m := route active typ fb rom oc healthy listers
+    let m := routeC active typ fb rom oc healthy listers
     let mo := Obs.ofRouted m
     let agree := o == mo && jbool (jget impl "err") == m.err && jstr (jget impl "name") == factoryName typ &&
       jbool (jget impl "refreshed") == refreshes typ rom healthy listers && !foreign
-    let v := if foreign then some "returned-endpoint-not-in-input" else routeViolation typ fb rom oc healthy listers o
+    let v := if foreign then some "returned-endpoint-not-in-input" else routeViolationC typ fb rom oc healthy listers o
     match v with
     | none => emit case agree true (branchOf typ fb mo) "" "" (obsJson mo m.err)
     | some sig =>
